@@ -786,8 +786,15 @@ class _Run:
                     if T.is_const(x) and v.format_spec is None and v.conversion == 115:
                         parts.append(C(str(x[1])))
                     else:
-                        parts.append(('fmt', x, ast.unparse(v.format_spec) if v.format_spec else '',
-                                      v.conversion))
+                        spec = ''
+                        if v.format_spec is not None:
+                            fs = v.format_spec
+                            if isinstance(fs, ast.JoinedStr) and all(
+                                    isinstance(c, ast.Constant) for c in fs.values):
+                                spec = ''.join(str(c.value) for c in fs.values)
+                            else:
+                                spec = ast.unparse(fs)
+                        parts.append(('fmt', x, spec, v.conversion))
                 else:
                     parts.append(x)
         return T.mk_fstr(parts)
